@@ -50,6 +50,9 @@ CHECKS = {
  "C16": ("exploration", "full-product enumeration of minting options; mint + import on the real code, entry-by-entry comparison, then a real resumption handshake in both directions; single-character secret corruption",
          "E-ENUM", "Every combination of sinful shape (incl. embedded '#', brackets, parameters), Encryption/Integrity toggles, cipher list, ValidCommands, lifetime, version form, tag and connection direction: both cache entries must agree on id, key, policy and expiry; the public form must not contain the secret; the policy text must be a render/parse fixed point; the dialling side must resume (no negotiation ad on the wire) and exchange ping/pong both ways; an importer whose secret differs in one character must get no application message accepted in either direction.",
          "8 (quick) / 64 (thorough) secret positions; tag axis reduced in quick.", "DESIGN.md §3 C16"),
+ "C18": ("exploration", "bounded exhaustive enumeration of a path-component grammar against the real FS client half inside a private mount namespace, with full filesystem snapshots; server half against every object kind",
+         "E-ENUM", "Every path built from 10 base spellings x ~80 leaf shapes (recognised, near-miss, traversal, control/non-ASCII bytes, over-long, remote and address-qualified forms over ip x port spellings; thorough adds every single-character mutation of two accepted paths) x peer address v4/v6 x local/remote x 4 scripted-server behaviours is sent to the real client; recursive snapshots before / while the server holds the answer / after show at most one new 0700 directory, only for paths an independent validator accepts, reply 0 iff created, and the initial state restored. The real server half is run against nothing / dir 0700 / dir 0755 / foreign-owned dir / dir with a sub-directory / file / symlinks / fifo.",
+         "Needs root and `unshare -m` (falls back to the host /tmp and says so in the evidence); in-package seam (overlay, tag verif) reaches the remote variant.", "DESIGN.md §3 C18"),
 }
 PENDING = "check not built yet in this session (planned, DESIGN.md section 3); listed here until its check is registered"
 def main():
